@@ -141,13 +141,13 @@ theorem writeAll_logFail (sink : σ → Nat → Resp × σ) (fuel : Nat) (s : σ
       cases hr : sink s (x :: xs).length with
       | mk r s' =>
         have hl : logFail' sink (s, b) (x :: xs).length = (r, (s', b || r == .fail)) := by
-          simp [logFail', hr]
+          simp only [logFail', hr]
         unfold writeAll
         rw [hl, hr]
         cases r with
         | accept k =>
           have e : (b || Resp.accept k == Resp.fail) = b := by
-            cases b <;> decide
+            cases b <;> simp
           rw [e]
           simp only
           split
@@ -155,7 +155,7 @@ theorem writeAll_logFail (sink : σ → Nat → Resp × σ) (fuel : Nat) (s : σ
           · exact ih s' _ _
         | interrupted =>
           have e : (b || Resp.interrupted == Resp.fail) = b := by
-            cases b <;> decide
+            cases b <;> simp
           rw [e]
           exact ih s' _ _
         | fail => simp
